@@ -80,6 +80,14 @@ def mutations(path, ops=None):
                     and '(' in s and s.count('(') == s.count(')') and s.count('{') == s.count('}') and 'panic!' not in s and 'debug_assert' not in s:
                 ind = l[:len(l) - len(l.lstrip())]
                 yield i, 'guard', '%sif !::std::thread::panicking() { %s }' % (ind, s)
+    if ops is not None and 'boolarg' in ops:
+        for i, l in code:
+            c = l.split('//')[0]
+            for m in re.finditer(r'\((true|false)\)', c):
+                other = 'false' if m.group(1) == 'true' else 'true'
+                yield i, 'boolarg@%d' % m.start(), l[:m.start()] + '(' + other + ')' + l[m.end():]
+            for m in re.finditer(r'\b(None|0)\b(?=\)\)?;)', c):
+                pass
     if ops is not None and 'cmpstate' in ops:
         for i, l in code:
             m = re.search(r'([=!]=\s*)QueueState::(\w+)', l.split('//')[0])
